@@ -4,6 +4,8 @@ import (
 	"fmt"
 	"math"
 
+	at "github.com/DanielSvub/anytype"
+
 	"verifharness/internal/drive"
 	"verifharness/internal/fw"
 	"verifharness/internal/rng"
@@ -292,6 +294,101 @@ func runC07(c *fw.Ctx) {
 	}
 	c.Cases("pinned", len(pins), true, func(i int, r *rng.R) {
 		c07Pair(c, r, pins[i][0], pins[i][1], "pinned")
+	})
+	// operands that hold the very same nested container instances: one built around the other's children or derived
+	// from it by SubList / Concat / Pluck / Merge, then changed in one top-level place
+	c.Cases("shared-instances", c.N(1500, 100000), false, func(i int, r *rng.R) {
+		isList := r.Bool()
+		n := r.Range(2, 6)
+		kids := make([]any, n)
+		kspec := make([]*spec.Spec, n)
+		for j := range kids {
+			if r.Chance(1, 2) {
+				t := spec.GenTree(r, spec.Opts{MaxDepth: 2, MaxWidth: 3, SafeKeys: true})
+				kspec[j], kids[j] = t, drive.Build(r, t)
+			} else {
+				t := spec.GenScalar(r)
+				kspec[j], kids[j] = t, drive.Native(t)
+			}
+		}
+		in := func() string {
+			return fmt.Sprintf("two containers around the same %d children (instances shared), then one top-level change", n)
+		}
+		guard(c, in, func() {
+			var a, b any
+			sa := &spec.Spec{K: spec.List}
+			if isList {
+				la := at.NewList(kids...)
+				var lb at.List
+				switch r.Intn(3) {
+				case 0:
+					lb = at.NewList(kids...)
+				case 1:
+					lb = la.SubList(0, 0)
+				default:
+					lb = la.Concat(at.NewList())
+				}
+				sa.L = append(sa.L, kspec...)
+				a, b = la, lb
+			} else {
+				sa = &spec.Spec{K: spec.Obj}
+				oa := at.NewObject()
+				for j := range kids {
+					k := "k" + fmt.Sprint(j)
+					oa.Set(k, kids[j])
+					sa.Set(k, kspec[j])
+				}
+				var ob at.Object
+				switch r.Intn(3) {
+				case 0:
+					ob = at.NewObject()
+					for j := range kids {
+						ob.Set("k"+fmt.Sprint(j), kids[j])
+					}
+				case 1:
+					ob = oa.Pluck(sa.Keys...)
+				default:
+					ob = at.NewObject().Merge(oa)
+				}
+				a, b = oa, ob
+			}
+			sb := sa.Clone()
+			// one top-level change of b (value replaced / element appended / nothing)
+			pos := r.Intn(n)
+			desc := "no change"
+			switch r.Intn(4) {
+			case 0:
+			case 1, 2:
+				nv := spec.StrV("changed")
+				if isList {
+					b.(at.List).Replace(pos, "changed")
+					sb.L[pos] = nv
+				} else {
+					b.(at.Object).Set("k"+fmt.Sprint(pos), "changed")
+					sb.Vals[pos] = nv
+				}
+				desc = fmt.Sprintf("slot %d replaced", pos)
+			default:
+				if isList {
+					b.(at.List).Add(nil)
+					sb.L = append(sb.L, spec.NilV())
+				} else {
+					b.(at.Object).Set("extra", nil)
+					sb.Set("extra", spec.NilV())
+				}
+				desc = "one slot appended"
+			}
+			want := spec.Equal(sa, sb)
+			c.Count("shared_instance_pairs")
+			c.Distinct(sa.Canon() + "|" + sb.Canon() + desc)
+			for rep := 0; rep < 2; rep++ {
+				ab, ba := equalsOf(a, b), equalsOf(b, a)
+				if ab != want || ba != want {
+					c.Violate("equals-differs-from-structural-equality", fmt.Sprintf("a = %s\n b = %s (%s; nested containers are the same instances in a and b)", sa.Canon(), sb.Canon(), desc), fmt.Sprint(want), fmt.Sprintf("a.Equals(b)=%v b.Equals(a)=%v", ab, ba))
+					return
+				}
+			}
+		})
 	})
 	// long lists that differ only near the end (and equal long lists)
 	c.Cases("long-lists", c.N(60, 3000), false, func(i int, r *rng.R) {
